@@ -399,19 +399,41 @@ theorem fileRawsStr_of_nonBackend (sem : Sem V) (row : OptRow) (s : Simple V) (h
   unfold fileRawsStr rawStrOk
   cases s.prof <;> cases s.dflt <;> simp [hnb]
 
+/-- a typed (non-string) TOML value of a backend-specific option, where one is supplied, is left unchanged by the
+validator.  FALSE of today's `guess_type`, which raises on a non-string (D14); true once it returns non-strings as
+they are.  `fileRawsStr` (no typed value supplied) is the special case that holds today. -/
+def TypedValuesKept (sem : Sem V) (row : OptRow) (s : Simple V) : Prop :=
+  ∀ k r, (s.prof = some (k, r) ∨ s.dflt = some (k, r)) → (isBackend row && !sem.isStr r) = true →
+    ∀ fv, row.file[k]? = some fv → sem.co fv.ty r = some r
+
+theorem typedValuesKept_of_str (sem : Sem V) (row : OptRow) (s : Simple V) (h : fileRawsStr sem row s = true) :
+    TypedValuesKept sem row s := by
+  intro k r hsrc hb
+  simp only [fileRawsStr, rawStrOk, Bool.and_eq_true] at h
+  rcases hsrc with hs | hs
+  · have := h.1
+    simp only [hs] at this
+    cases hb1 : isBackend row <;> cases hb2 : sem.isStr r <;> simp [hb1, hb2] at this hb
+  · have := h.2
+    simp only [hs] at this
+    cases hb1 : isBackend row <;> cases hb2 : sem.isStr r <;> simp [hb1, hb2] at this hb
+
 theorem fileValue_eq_varStep (sem : Sem V) (row : OptRow) (k : Nat) (r : V) (fv : OptFileVar) (lower : Except Err V) (cfg : V)
-    (hnb : (isBackend row && !sem.isStr r) = false) (hfv : row.file[k]? = some fv)
+    (hnb : (isBackend row && !sem.isStr r) = true → sem.co fv.ty r = some r) (hfv : row.file[k]? = some fv)
     (htr : flagOk sem row (some (k, r)) = true) :
     fileValue sem row (k, r) lower = varStep sem fv r cfg := by
-  simp only [fileValue, hfv, varStep, hnb]
-  cases hkind : fv.kind <;> simp
-  · cases sem.co fv.ty r <;> simp [orErr]
+  simp only [fileValue, hfv, varStep]
+  cases hkind : fv.kind
+  · cases hb : (isBackend row && !sem.isStr r)
+    · cases hco : sem.co fv.ty r <;> simp [orErr]
+    · simp [hnb hb]
   · simp [flagOk, hfv, hkind] at htr
     cases hco : sem.co fv.ty r <;> simp [hco] at htr ⊢
     simp [htr]
+  · simp
 
 /-- the file stage on simple inputs: no exclusivity error, and the value is the one the specification names -/
-theorem file_stage (sem : Sem V) (row : OptRow) (s : Simple V) (hstr : fileRawsStr sem row s = true)
+theorem file_stage (sem : Sem V) (row : OptRow) (s : Simple V) (hstr : TypedValuesKept sem row s)
     (hp : fileOk sem row s.prof = true) (hd : fileOk sem row s.dflt = true)
     (hsame : sameKey s = true) (htr : flagsTruthy sem row s = true) :
     fileMutexViolated row (overlay s.toInputs.dflt s.toInputs.prof) = false ∧
@@ -439,9 +461,8 @@ theorem file_stage (sem : Sem V) (row : OptRow) (s : Simple V) (hstr : fileRawsS
       | none => simp [hfv] at hp
       | some fv =>
         simp only [specBelowEnv, hprof]
-        have hnb : (isBackend row && !sem.isStr r) = false := by
-          simp only [fileRawsStr, rawStrOk, hprof, Bool.and_eq_true] at hstr
-          cases hb1 : isBackend row <;> cases hb2 : sem.isStr r <;> simp [hb1, hb2] at hstr ⊢
+        have hnb : (isBackend row && !sem.isStr r) = true → sem.co fv.ty r = some r :=
+          fun hb => hstr k r (Or.inl hprof) hb fv hfv
         rw [fileValue_eq_varStep sem row k r fv _ s.builtin hnb hfv (by simpa [hprof] using htr.1)]
     | none =>
       have hdf : s.dflt = some (k, r) := by simpa [hprof] using hw
@@ -450,9 +471,8 @@ theorem file_stage (sem : Sem V) (row : OptRow) (s : Simple V) (hstr : fileRawsS
       | none => simp [hfv] at hd
       | some fv =>
         simp only [specBelowEnv, hprof, specBelowProfile, hdf]
-        have hnb : (isBackend row && !sem.isStr r) = false := by
-          simp only [fileRawsStr, rawStrOk, hprof, hdf, Bool.and_eq_true] at hstr
-          cases hb1 : isBackend row <;> cases hb2 : sem.isStr r <;> simp [hb1, hb2] at hstr ⊢
+        have hnb : (isBackend row && !sem.isStr r) = true → sem.co fv.ty r = some r :=
+          fun hb => hstr k r (Or.inr hdf) hb fv hfv
         rw [fileValue_eq_varStep sem row k r fv _ s.builtin hnb hfv (by simpa [hdf] using htr.2)]
 
 
@@ -502,7 +522,7 @@ theorem cfgMain_eq (sem : Sem V) (row : OptRow) (s : Simple V) (hnb : isBackend 
     (hp : fileOk sem row s.prof = true) (hd : fileOk sem row s.dflt = true)
     (hsame : sameKey s = true) (htr : flagsTruthy sem row s = true) :
     cfgMain sem row s.toInputs = specBelowCli sem row s := by
-  obtain ⟨h1, h2⟩ := file_stage sem row s (fileRawsStr_of_nonBackend sem row s hnb) hp hd hsame htr
+  obtain ⟨h1, h2⟩ := file_stage sem row s (typedValuesKept_of_str sem row s (fileRawsStr_of_nonBackend sem row s hnb)) hp hd hsame htr
   obtain ⟨c, hc⟩ := specBelowEnv_ok sem row s hp hd htr
   unfold cfgMain specBelowCli
   have hb : s.toInputs.builtin = s.builtin := rfl
@@ -737,7 +757,7 @@ theorem precedence_main (sem : Sem V) (hsem : SemOK sem) (cmd : OptCommand)
 theorem precedence_backend (sem : Sem V) (cmd : OptCommand)
     (hc : cmd.setDefaults = true) (hp : cmd.parents = true) (row : OptRow) (hs : row.scope = 2)
     (hwf : wfBackend row = true) (s : Simple V) (hv : valid sem row s = true)
-    (hstr : fileRawsStr sem row s = true)
+    (hstr : TypedValuesKept sem row s)
     (hidem : s.cli = none → ∀ c, specBelowCli sem row s = .ok c → sem.isStr c = true → sem.co .guessType c = some c) :
     pipelineFinal sem cmd row s.toInputs = spec sem row s := by
   simp only [wfBackend, Bool.and_eq_true, Bool.not_eq_true'] at hwf
